@@ -95,10 +95,18 @@ func VerifH_C07_Acks() {
 		}
 		return found, at
 	}
+	ctx, cancelAll := context.WithCancel(context.Background())
+	if verifChoice("cancel", 2) == 1 {
+		// the callers' context ends at some idle moment (e.g. between PUBREC and PUBCOMP)
+		go func() {
+			verifPause()
+			verifEvent("cancel")
+			cancelAll()
+		}()
+	}
 	for i := range reqs {
 		r := reqs[i]
 		go func() {
-			ctx := context.Background()
 			switch r.kind {
 			case c11Pub1:
 				r.err = cli.Publish(ctx, &Message{Topic: "t", QoS: QoS1, Payload: []byte{1}})
@@ -221,6 +229,85 @@ func VerifH_C07_Acks() {
 			}
 		}
 		_ = errors.Is
+		cancelAll()
+	})
+}
+
+// A broker that answers every request at once: the acknowledgement is already readable before the
+// client's Transport.Write returns, and the reader goroutine may process it first.  Every caller
+// must still complete.
+func VerifH_C07_Prompt() {
+	conn := newVconn("c0")
+	conn.yieldAfterWrite = true
+	cli := &BaseClient{Transport: conn}
+	verifSetRand(100)
+	first := true
+	conn.onWrite = func(c *vconn, p []byte) error {
+		var resp []byte
+		if first {
+			first = false
+			resp = []byte{0x20, 2, 0, 0}
+		} else if d := refDecode(p); d.ok {
+			switch d.typ {
+			case 3:
+				if (d.flags>>1)&3 == 1 {
+					resp = refEncodeAck(0x40, d.id)
+				} else if (d.flags>>1)&3 == 2 {
+					resp = refEncodeAck(0x50, d.id)
+				}
+			case 6:
+				resp = refEncodeAck(0x70, d.id)
+			case 8:
+				resp = []byte{0x90, byte(2 + len(d.filters)), byte(d.id >> 8), byte(d.id)}
+				resp = append(resp, d.qoss...)
+			case 10:
+				resp = refEncodeAck(0xB0, d.id)
+			case 12:
+				resp = []byte{0xD0, 0}
+			}
+		}
+		if resp != nil {
+			c.rbuf = append(c.rbuf, resp...)
+			c.nInjected += len(resp)
+			c.signalLocked = true
+		}
+		return nil
+	}
+	_, cerr := cli.Connect(context.Background(), "cid")
+	verifAssert(cerr == nil, "C07.harness_connect")
+	n := verifChoice("callers", 2) + 1
+	returned := make([]bool, n)
+	errs := make([]error, n)
+	kinds := make([]int, n)
+	for i := 0; i < n; i++ {
+		i := i
+		kinds[i] = verifChoice("kind", 4) // Publish q1, Publish q2, Subscribe, Unsubscribe (Ping is not part of the statement: it has a single waiter slot)
+		go func() {
+			ctx := context.Background()
+			switch kinds[i] {
+			case 0:
+				errs[i] = cli.Publish(ctx, &Message{Topic: "t", QoS: QoS1, Payload: []byte{1}})
+			case 1:
+				errs[i] = cli.Publish(ctx, &Message{Topic: "t", QoS: QoS2, Payload: []byte{2}})
+			case 2:
+				_, errs[i] = cli.Subscribe(ctx, Subscription{Topic: "a", QoS: QoS1})
+			case 3:
+				errs[i] = cli.Unsubscribe(ctx, "a")
+			case 4:
+				errs[i] = cli.Ping(ctx)
+			}
+			returned[i] = true
+		}()
+	}
+	verifOnQuiescence(func() {
+		verifReach("end")
+		for i := 0; i < n; i++ {
+			verifAssert(returned[i], "C07.completes_when_ack_precedes_write_return")
+			if returned[i] {
+				verifAssert(errs[i] == nil, "C07.prompt_ack_is_success")
+			}
+		}
+		cli.Close()
 	})
 }
 
